@@ -30,7 +30,16 @@ META = {
         "LivenessAnalysis with the unmodified deque and with `_worklist` replaced by a logging container popping "
         "at scheduler-chosen positions (FIFO, LIFO, ≥20 random orders; all orders for the small-scope "
         "enumeration); liveness per value and the sequence of popped work items are compared with the Lean model "
-        "run on the same schedule, and liveness with an independent reachability oracle."
+        "run on the same schedule, and liveness with an independent reachability oracle. Removability is a property "
+        "of the op INSTANCE: besides op classes whose removability is a class constant the programs hold several "
+        "ops of one class with differing answers (RegisterAllocatedMemoryEffect: test.allocatable, rv32.li, "
+        "riscv.add/mul/mv/lw/sw, x86.ds.mov with unallocated/allocated result registers; dmp.swap with/without "
+        "result), in both relative orders, under both load orders and all schedules. Three independent sources for "
+        "the flag: the oracle derives it from the case description (kind + result type letters), the Lean model "
+        "computes it itself (`instWbd`, from the traits and operand/result register types read off the real op — "
+        "theorems instWbd_iff, instWbd_regAlloc, instWbd_operands_irrelevant, instWbd_not_class_constant, "
+        "live_mono_wbd, solve_mono_wbd, class_constant_flag_counterexample), and the model's flags are compared with "
+        "would_be_trivially_dead(op) called per instance (`wbd` line)."
     ),
     "technique": "Lean 4 proof over a scheduler-parametric solver model + differential correspondence (liveness and pop trace per schedule) with the real solver",
     "level_note": (
@@ -46,8 +55,11 @@ META = {
         "walk already reaches the fixpoint (worklist stays empty); non-empty worklists come from graph-region "
         "module bodies (uses before defs, cycles) and from boundary values passed to set_to_exit_state after "
         "initialisation by a harness subclass of LivenessAnalysis. 'Not trivially removable' is "
-        "would_be_trivially_dead(op) = False; the oracle uses the generator's design table of op kinds, the model "
-        "the flag computed by the real function. Trusted: Lean kernel, the hand-written model (tied by "
+        "would_be_trivially_dead(op) = False for that op instance; the oracle uses the generator's design table "
+        "(per kind a constant, or — kinds carrying RegisterAllocatedMemoryEffect — 'no result has an allocated "
+        "register type'), the model its own instWbd of the instance description (traits whose get_effects the "
+        "model does not describe, i.e. dmp.swap here: the flag of the real function for that instance, counted as "
+        "ops.flag_from_real_function). Trusted: Lean kernel, the hand-written model (tied by "
         "correspondence), Python set/dict semantics, this harness."
     ),
     "rule": (
@@ -56,7 +68,8 @@ META = {
         "least one value live through a chain of ≥2 operand edges and leaves at least one value dead; distinct = "
         "distinct program JSON. Every program is solved with the untouched deque, FIFO, LIFO and ≥20 random schedules "
         "(small-scope programs: every schedule). Histogram counts programs per mode, schedules, pops, and programs "
-        "whose worklist held ≥2 items at once (where schedules can differ)."
+        "whose worklist held ≥2 items at once (where schedules can differ), and programs in which one op class "
+        "has a removable instance before / after a non-removable one (programs.same_class.*)."
     ),
     "trusted_base": [
         "correspondence harness harness/props/c25.py (differential: liveness bits + worklist pop trace per schedule)",
@@ -68,8 +81,17 @@ META = {
 SITE_IMPL = "xdsl.analysis.liveness_analysis.LivenessAnalysis.visit_operation_impl"
 SITE_SOLVER = "xdsl.analysis.dataflow.DataFlowSolver.initialize_and_run"
 
-# kind -> (fixed operand types or None = variadic, removable by design)
-KINDS: dict[str, tuple[str | None, bool]] = {
+# Value types: one letter each.  i = i32, m = memref<i32>; register types: r = !riscv.reg (unallocated),
+# R = !riscv.reg<a0>, S = !riscv.reg<t2>, t = !test.reg, T = !test.reg<a1>, x = !x86.reg64, X = !x86.reg64<rax>;
+# f = !stencil.field, p = !stencil.temp.
+ALLOCATED = "RSTX"   # the letters that stand for an *allocated* register type
+ALL_TYPES = "imrRStTxXfp"
+
+# kind -> (operand signature: None = variadic of any types, else one entry per operand listing the admissible
+#          type letters; removable by design: True / False = a constant of the op class, "regs" = decided per
+#          INSTANCE: the op (a class carrying RegisterAllocatedMemoryEffect) is removable iff none of its results
+#          has an allocated register type — allocated *operands* only add READ effects)
+KINDS: dict[str, tuple[Any, Any]] = {
     "const": ("", True),
     "addi": ("ii", True),
     "muli": ("ii", True),
@@ -84,9 +106,38 @@ KINDS: dict[str, tuple[str | None, bool]] = {
     "store": ("im", False),   # memref.store
     "call": ("i", False),     # func.call @ext
     "ret": (None, False),     # func.return: terminator
+    # --- one op class, removability differs between instances -----------------------------------------------
+    "alloc": (None, "regs"),              # test.allocatable (operands/results of any type)
+    "li": ((), "regs"),                   # rv32.li
+    "radd": (("rRS", "rRS"), "regs"),     # riscv.add
+    "rmul": (("rRS", "rRS"), "regs"),     # riscv.mul
+    "rmv": (("rRS",), "regs"),            # riscv.mv
+    "rlw": (("rRS",), "regs"),            # riscv.lw: + MemoryReadEffect (read-only)
+    "rsw": (("rRS", "rRS"), False),       # riscv.sw: + MemoryWriteEffect
+    "xmov": (("xX",), "regs"),            # x86.ds.mov
+    # dmp.swap (SwapOpMemoryEffect): with a result (temp operand) it has no effects, without (field operand)
+    # it reads and writes its operand — one class, two design rows
+    "swapf": (("f",), False),
+    "swapp": (("p",), True),
 }
+INSTANCE_KINDS = {k for k, (_s, r) in KINDS.items() if r == "regs"} | {"swapf", "swapp"}
+OP_CLASS = {"swapf": "swap", "swapp": "swap"}   # kinds that are the same xDSL op class
+
+
+def op_removable(kind: str, outs: str) -> bool:
+    """Removability of one op instance by design of the generator — from the case description alone
+    (kind and result types), never from xDSL."""
+    r = KINDS[kind][1]
+    if r == "regs":
+        return not any(c in ALLOCATED for c in outs)
+    return bool(r)
 FIXED_OUT = {"const": "i", "addi": "i", "muli": "i", "subi": "i", "xori": "i", "divsi": "i", "load": "i",
-             "write": "", "store": "", "call": "i", "ret": ""}
+             "write": "", "store": "", "call": "i", "ret": "", "rsw": "", "swapf": "", "swapp": "p"}
+# result types the generator chooses from, for kinds whose removability hangs on them
+REG_OUT = {"li": ["r", "r", "R", "S"], "radd": ["r", "r", "R", "S"], "rmul": ["r", "R"], "rmv": ["r", "r", "R", "S"],
+           "rlw": ["r", "R"], "xmov": ["x", "x", "X"],
+           "alloc": ["", "t", "t", "T", "T", "r", "R", "tT", "Tt", "it", "iT", "tt", "rr", "RS", "x", "X", "i", "p"]}
+VAR_OUT = ["i", "i", "i", "i", "ii", "im", "iii", "m", "r", "rR", "rS", "x", "X", "f", "p", "t", "T"]
 
 
 # ---------------------------------------------------------------------------------------------
@@ -106,8 +157,8 @@ def value_types(case: dict) -> list[str]:
     return ts
 
 
-def flat_ops(case: dict) -> list[tuple[str, list[int], list[int], bool]]:
-    """(kind, operands, results, in public function) in program order"""
+def flat_ops(case: dict) -> list[tuple[str, list[int], list[int], bool, bool]]:
+    """(kind, operands, results, in public function, removable by design) in program order"""
     out = []
     nxt = 0
     for f in case["funcs"]:
@@ -115,7 +166,7 @@ def flat_ops(case: dict) -> list[tuple[str, list[int], list[int], bool]]:
         for kind, ins, outs in f["ops"]:
             res = list(range(nxt, nxt + len(outs)))
             nxt += len(outs)
-            out.append((kind, list(ins), res, bool(f["public"])))
+            out.append((kind, list(ins), res, bool(f["public"]), op_removable(kind, outs)))
     return out
 
 
@@ -136,14 +187,14 @@ def reference(case: dict) -> list[bool]:
             live[v] = True
             todo.append(v)
 
-    for kind, ins, _res, public in ops:
-        if not KINDS[kind][1] or (kind == "ret" and public):
+    for kind, ins, _res, public, removable in ops:
+        if not removable or (kind == "ret" and public):
             for v in ins:
                 root(v)
     for v in list(case.get("seeds", [])) + list(case.get("exits", [])):
         root(v)
     producers: dict[int, list[int]] = {}
-    for _kind, ins, res, _p in ops:
+    for _kind, ins, res, _p, _rm in ops:
         for r in res:
             producers.setdefault(r, []).extend(ins)
     while todo:
@@ -159,8 +210,8 @@ def chain_depths(case: dict, live: list[bool]) -> int:
     n = len(live)
     dist: list[int | None] = [None] * n
     frontier = []
-    for kind, ins, _res, public in ops:
-        if not KINDS[kind][1]:
+    for kind, ins, _res, public, removable in ops:
+        if not removable:
             for v in ins:
                 if dist[v] is None:
                     dist[v] = 1
@@ -170,7 +221,7 @@ def chain_depths(case: dict, live: list[bool]) -> int:
             dist[v] = 1
             frontier.append(v)
     producers: dict[int, list[int]] = {}
-    for _kind, ins, res, _p in ops:
+    for _kind, ins, res, _p, _rm in ops:
         for r in res:
             producers.setdefault(r, []).extend(ins)
     best = 1 if frontier else 0
@@ -233,14 +284,29 @@ class SchedList:
     pop = popleft
 
 
+_TY: dict[str, Any] = {}
+
+
 def build(case: dict):
     """-> (module, top-level op to analyse, body ops in program order, values by id, blocks)"""
-    from xdsl.dialects import arith, func, memref, test
-    from xdsl.dialects.builtin import MemRefType, ModuleOp, i32
+    from xdsl.dialects import arith, func, memref, riscv, rv32, stencil, test, x86
+    from xdsl.dialects.builtin import MemRefType, ModuleOp, f32, i32
+    from xdsl.dialects.experimental import dmp
+    from xdsl.dialects.x86 import registers as x86_regs
     from xdsl.ir import Block, Region
 
-    mt = MemRefType(i32, [])
-    ty = {"i": i32, "m": mt}
+    if not _TY:
+        _TY.update({
+            "i": i32, "m": MemRefType(i32, []),
+            "r": riscv.IntRegisterType.unallocated(), "R": riscv.Registers.A0, "S": riscv.Registers.T2,
+            "t": test.TestRegisterType.unallocated(), "T": test.TestRegisterType.from_name("a1"),
+            "x": x86_regs.UNALLOCATED_REG64, "X": x86_regs.RAX,
+            "f": stencil.FieldType([(0, 8), (0, 8)], f32), "p": stencil.TempType([(0, 8), (0, 8)], f32)})
+        _TY["strategy"] = dmp.GridSlice2dAttr((2, 2))
+        for c in ALL_TYPES:
+            if (c in ALLOCATED) != bool(getattr(_TY[c], "is_allocated", False)):
+                raise core.InfraError(f"type letter {c}: allocated registers are exactly the letters {ALLOCATED}")
+    ty = _TY
     mode = case["mode"]
     vals: list[Any] = []
     body_ops: list[Any] = []
@@ -271,6 +337,28 @@ def build(case: dict):
             return func.CallOp("ext", [ins[0]], [i32])
         if kind == "ret":
             return func.ReturnOp(*ins)
+        if kind == "alloc":
+            # both operand segments and both result segments are used; the order of operands/results is kept
+            # (the verifier wants as many inout operands as inout results)
+            q = min(len(ins), len(rt)) // 2
+            ki, ko = len(ins) - q, len(rt) - q
+            return test.TestAllocatableOp(ins[:ki], ins[ki:], rt[:ko], rt[ko:])
+        if kind == "li":
+            return rv32.LiOp(5, rd=rt[0])
+        if kind == "radd":
+            return riscv.AddOp(ins[0], ins[1], rd=rt[0])
+        if kind == "rmul":
+            return riscv.MulOp(ins[0], ins[1], rd=rt[0])
+        if kind == "rmv":
+            return riscv.MVOp(ins[0], rd=rt[0])
+        if kind == "rlw":
+            return riscv.LwOp(ins[0], 0, rd=rt[0])
+        if kind == "rsw":
+            return riscv.SwOp(ins[0], ins[1], 0)
+        if kind == "xmov":
+            return x86.DS_MovOp(ins[0], destination=rt[0])
+        if kind in ("swapf", "swapp"):
+            return dmp.SwapOp.get(ins[0], ty["strategy"])
         raise core.InfraError(f"unknown op kind {kind}")
 
     if mode == "graph":
@@ -278,9 +366,12 @@ def build(case: dict):
         if f["args"]:
             raise core.InfraError("graph mode has no block arguments")
         types = value_types(case)
-        ph = {c: test.TestPureOp(result_types=[ty[c]]).results[0] for c in "im"}
+        ph: dict[str, Any] = {}   # placeholder operands until every value exists
         created = []
         for kind, ins, outs in f["ops"]:
+            for v in ins:
+                if types[v] not in ph:
+                    ph[types[v]] = test.TestPureOp(result_types=[ty[types[v]]]).results[0]
             op = mk(kind, [ph[types[v]] for v in ins], outs)
             created.append(op)
             vals.extend(op.results)
@@ -336,6 +427,40 @@ def model_ops_of(case: dict, module, body_ops: list) -> list:
     return out
 
 
+_IMPLS: dict[Any, str] = {}
+
+
+def describe(op) -> str:
+    """The model's op line prefix for one real op instance.  `opi …`: what `would_be_trivially_dead` depends
+    on, read off the op itself — class level: terminator? symbol? which implementations of
+    `MemoryEffect.get_effects` its traits use; instance level: which operand/result types are allocated
+    registers — WITHOUT calling `get_effects` / `would_be_trivially_dead`: the Lean model computes the flag
+    (`instWbd`).  A trait whose `get_effects` the model does not describe: `op <flag>` with the answer of the
+    real function for this instance."""
+    from xdsl.backend.register_type import RegisterAllocatedMemoryEffect, RegisterType
+    from xdsl.traits import (IsTerminator, MemoryAllocEffect, MemoryEffect, MemoryFreeEffect, MemoryReadEffect,
+                             MemoryWriteEffect, NoMemoryEffect, SymbolOpInterface)
+    from xdsl.transforms.dead_code_elimination import would_be_trivially_dead
+
+    if not _IMPLS:
+        for cls, letter in ((NoMemoryEffect, "N"), (MemoryReadEffect, "r"), (MemoryWriteEffect, "w"),
+                            (MemoryAllocEffect, "a"), (MemoryFreeEffect, "f"), (RegisterAllocatedMemoryEffect, "G")):
+            _IMPLS[cls.get_effects.__func__] = letter
+    letters = []
+    for t in op.get_traits_of_type(MemoryEffect):
+        letter = _IMPLS.get(type(t).get_effects.__func__)
+        if letter is None:
+            return f"op {int(bool(would_be_trivially_dead(op)))}"
+        letters.append(letter)
+
+    def bits(vals) -> str:
+        return "".join("1" if isinstance(v.type, RegisterType) and v.type.is_allocated else "0" for v in vals) or "-"
+
+    return " ".join(["opi", str(int(op.has_trait(IsTerminator, value_if_unregistered=False))),
+                     str(int(op.has_trait(SymbolOpInterface, value_if_unregistered=False))),
+                     "".join(sorted(letters)) or "-", bits(op.operands), bits(op.results)])
+
+
 def analyse(case: dict, chooser=None, verify: bool = False, order: str = "dca_first") -> dict:
     """Run the real solver.  chooser=None: untouched deque.  `order`: DeadCodeAnalysis loaded before
     (dca_first) or after (live_first) LivenessAnalysis.  Returns liveness bits, pop trace (indices into
@@ -383,7 +508,8 @@ def analyse(case: dict, chooser=None, verify: bool = False, order: str = "dca_fi
     for v in vals:
         st = solver.lookup_state(v, Liveness)
         bits.append(bool(st is not None and st.is_live))
-    index = {id(op): i for i, op in enumerate(model_ops_of(case, module, body_ops))}
+    model_ops = model_ops_of(case, module, body_ops)
+    index = {id(op): i for i, op in enumerate(model_ops)}
     trace: list[int] = []
     picks: list[int] = []
     if wl is not None:
@@ -393,6 +519,10 @@ def analyse(case: dict, chooser=None, verify: bool = False, order: str = "dca_fi
     return {
         "bits": bits, "trace": trace, "picks": picks, "err": err, "order": order,
         "wbd": [bool(would_be_trivially_dead(op)) for op in body_ops],
+        # per op of the model's op list: line prefix (see `describe`) and flag of the real function
+        # (runs with the untouched deque only: the program is the same for every schedule)
+        "descs": [describe(op) for op in model_ops] if chooser is None else None,
+        "wbd_model": [bool(would_be_trivially_dead(op)) for op in model_ops] if chooser is None else None,
         "max_wl": wl.max_len if wl is not None else None,
         "rest": len(wl) if wl is not None else 0,
         "lens": [n for _i, n, _x in wl.log] if wl is not None else [],
@@ -409,35 +539,44 @@ def bits_str(bits) -> str:
     return "".join("1" if b else "0" for b in bits)
 
 
-def model_lines(case: dict, wbd: list[bool], scheds: list[list[int]], order: str = "dca_first") -> list[str]:
+def model_lines(case: dict, descs: list[str], scheds: list[list[int]], order: str = "dca_first") -> list[str]:
     """program for the Lean model: ops with their block ids, and which blocks are executable before
-    (`pre`) / become executable after (`post`) the initialisation of the liveness analysis"""
+    (`pre`) / become executable after (`post`) the initialisation of the liveness analysis.  `descs`: the
+    line prefixes of `describe` for the real ops in the order of `model_ops_of` (body ops and, where the
+    analysed block holds them, the func.func ops)."""
     lines = [f"reset {len(value_types(case))}"]
     mode = case["mode"]
-    oplines = [" ".join(map(str, ["op", int(w), len(ins), *ins, *res]))
-               for (kind, ins, res, _p), w in zip(flat_ops(case), wbd)]
+    descs = list(descs)
+    body = [(len(ins), ins, res) for (kind, ins, res, _p, _rm) in flat_ops(case)]
+
+    def opline(ins=(), res=()) -> str:
+        return " ".join(map(str, [descs.pop(0), len(ins), *ins, *res]))
+
     dca = "pre 0" if order == "dca_first" else "post 0"
     if mode in ("func", "graph"):
-        lines += oplines
+        lines += [opline(ins, res) for _n, ins, res in body]
         if mode == "graph":
-            lines.append("op 1 0")           # the external func.func closing the module block
+            lines.append(opline())           # the external func.func closing the module block
         lines.append(dca)
     else:
         k = 0
         for fi, f in enumerate(case["funcs"]):
             n = len(f["ops"])
             if mode == "module_dca":
-                lines += ["blk 0", "op 1 0", f"blk {fi + 1}"]       # the func.func op itself
+                lines += ["blk 0", opline(), f"blk {fi + 1}"]       # the func.func op itself
             else:
                 lines.append(f"blk {fi}")
-            lines += oplines[k:k + n]
+            lines += [opline(ins, res) for _n, ins, res in body[k:k + n]]
             k += n
         if mode == "module_dca":
-            lines += ["blk 0", "op 1 0", dca]                      # func.func @ext; only block 0 is ever executable
+            lines += ["blk 0", opline(), dca]                      # func.func @ext; only block 0 is ever executable
         else:
             lines += [f"pre {fi}" for fi in range(len(case["funcs"]))]  # `.live = True` by hand
+    if descs:
+        raise core.InfraError("op descriptions and model op list out of step")
     lines += [f"seed {v}" for v in case.get("seeds", [])]
     lines += [f"exit {v}" for v in case.get("exits", [])]
+    lines.append("wbd")
     lines += [" ".join(["solve", *map(str, s)]) for s in scheds]
     return lines
 
@@ -483,19 +622,28 @@ def all_schedules(case: dict, cap: int = 400, order: str = "dca_first"):
 def gen_body(rng, args: str, nops: int, graph: bool, first_id: int = 0) -> list[list[Any]]:
     """ops of one body.  Dominance order unless `graph` (then operands may be any value)."""
     kinds_w = [("const", 2), ("addi", 4), ("muli", 2), ("subi", 2), ("xori", 1), ("divsi", 1), ("pure", 5),
-               ("read", 2), ("load", 1), ("test", 2), ("write", 1), ("store", 1), ("call", 1)]
+               ("read", 2), ("load", 1), ("test", 2), ("write", 1), ("store", 1), ("call", 1),
+               ("alloc", 4), ("li", 2), ("radd", 3), ("rmul", 1), ("rmv", 2), ("rlw", 1), ("rsw", 1), ("xmov", 1),
+               ("swapf", 1), ("swapp", 1)]
     eff_scale = rng.choice([0.0, 0.3, 1.0, 1.0, 2.5])
+    # share of ops whose removability is a property of the instance (0: the class-constant families alone;
+    # large: bodies made of a few op classes with removable and non-removable instances side by side)
+    inst_scale = rng.choice([0.0, 0.5, 1.0, 3.0, 10.0])
     names = [k for k, _ in kinds_w]
-    weights = [w * (eff_scale if not KINDS[k][1] else 1.0) for k, w in kinds_w]
+    weights = [w * (eff_scale if KINDS[k][1] is False else 1.0) * (inst_scale if k in INSTANCE_KINDS else 1.0)
+               for k, w in kinds_w]
+    var_out = VAR_OUT if inst_scale else ["i", "i", "i", "ii", "im", "iii", "m"]
     plan: list[tuple[str, str, int]] = []  # kind, out types, #operands for variadic
     for _ in range(nops):
         kind = rng.choices(names, weights)[0]
         if kind in FIXED_OUT:
             outs = FIXED_OUT[kind]
+        elif kind in REG_OUT:
+            outs = rng.choice(REG_OUT[kind])
         elif kind == "test":
             outs = rng.choice(["", "i", "i", "ii", "m"])
         else:
-            outs = rng.choice(["i", "i", "i", "ii", "im", "iii", "m"])
+            outs = rng.choice(var_out)
         plan.append((kind, outs, rng.choice([0, 1, 1, 2, 2, 3]) if KINDS[kind][0] is None else 0))
     # value table
     types: list[str] = list(args)
@@ -508,7 +656,7 @@ def gen_body(rng, args: str, nops: int, graph: bool, first_id: int = 0) -> list[
     for j, (kind, outs, nvar) in enumerate(plan):
         def pick(t: str | None):
             hi = len(types) if graph else avail_end
-            cands = [first_id + v for v in range(hi) if t is None or types[v] == t]
+            cands = [first_id + v for v in range(hi) if t is None or types[v] in t]
             if not cands:
                 return None
             if rng.random() < 0.6:  # favour recent values: chains
@@ -535,7 +683,7 @@ def gen_body(rng, args: str, nops: int, graph: bool, first_id: int = 0) -> list[
                     break
                 ins.append(v)
         if not ok:  # fall back to something that needs no operands of that type
-            kind, ins = ("const", []) if outs == "i" else ("pure", [])
+            kind, ins = ("const", []) if outs == "i" else ("li", []) if outs in ("r", "R", "S") else ("pure", [])
         ops.append([kind, ins, outs])
         avail_end += len(outs)
     return ops
@@ -550,7 +698,7 @@ def gen_case(rng, mode: str, size: int) -> dict:
         nf = 1 if mode == "func" else rng.randint(1, 3)  # modes module, module_dca
         base = 0
         for _ in range(nf):
-            args = "".join(rng.choice("iiim") for _ in range(rng.randint(0, 3)))
+            args = "".join(rng.choice("iiim" if rng.random() < 0.6 else "iimrRtTxfp") for _ in range(rng.randint(0, 3)))
             ops = gen_body(rng, args, rng.randint(0, size), False, base)
             types = list(args) + [c for o in ops for c in o[2]]
             ivals = [base + k for k, t in enumerate(types) if t == "i"]
@@ -584,6 +732,46 @@ def small_scope(nops: int):
                    "exits": [] if ex is None else [ex]}
 
 
+def small_scope_inst(nops: int):
+    """every graph-mode program with `nops` single-result ops of ONE class (test.allocatable, one operand)
+    whose result is an unallocated (removable instance) or an allocated (non-removable instance) register,
+    operands among all values, plus optionally one exit value: every mix and every relative order of
+    removable and non-removable instances of the same class"""
+    n = nops
+    shapes = [("alloc", [a], out) for a in range(n) for out in ("t", "T")]
+    for combo in itertools.product(shapes, repeat=n):
+        ops = [[k, list(ins), out] for k, ins, out in combo]
+        for ex in [None, *range(n)]:
+            yield {"mode": "graph", "funcs": [{"public": True, "args": "", "ops": ops}], "seeds": [],
+                   "exits": [] if ex is None else [ex]}
+
+
+def small_scope_inst_func(nops: int):
+    """the same family in a function body (dominance order: operands among the two block arguments and
+    earlier results), closed by a `func.return` of nothing, in a public function"""
+    def rec(k: int, ops: list):
+        if k == nops:
+            yield {"mode": "func", "funcs": [{"public": True, "args": "tt", "ops": ops + [["ret", [], ""]]}],
+                   "seeds": [], "exits": []}
+            return
+        for a in range(2 + k):
+            for out in ("t", "T"):
+                yield from rec(k + 1, ops + [["alloc", [a], out]])
+    yield from rec(0, [])
+
+
+def same_class_orders(case: dict) -> set[str]:
+    """which relative orders of a removable and a non-removable instance of one op class occur"""
+    seen: dict[str, set[bool]] = {}
+    out: set[str] = set()
+    for kind, _ins, _res, _p, rm in flat_ops(case):
+        cls = OP_CLASS.get(kind, kind)
+        if (not rm) in seen.get(cls, ()):
+            out.add("removable_after_effectful" if rm else "effectful_after_removable")
+        seen.setdefault(cls, set()).add(rm)
+    return out
+
+
 # ---------------------------------------------------------------------------------------------
 # checking one program
 # ---------------------------------------------------------------------------------------------
@@ -611,13 +799,13 @@ def shrink_case(case: dict, still_fails) -> dict:
                     cur, changed = c, True
         # remove one op whose results are unused anywhere
         ops = flat_ops(cur)
-        used = {v for _k, ins, _r, _p in ops for v in ins} | set(cur.get("seeds", [])) | set(cur.get("exits", []))
+        used = {v for _k, ins, _r, _p, _rm in ops for v in ins} | set(cur.get("seeds", [])) | set(cur.get("exits", []))
         gi = len(ops)
         for fi in reversed(range(len(cur["funcs"]))):
             f = cur["funcs"][fi]
             for oi in reversed(range(len(f["ops"]))):
                 gi -= 1
-                kind, ins, res, _p = ops[gi]
+                kind, ins, res, _p, _rm = ops[gi]
                 if kind == "ret" or any(r in used for r in res):
                     continue
                 c = json.loads(json.dumps(cur))
@@ -698,10 +886,11 @@ class Batch:
         self.expect: list[str] = []
         self.cases: list[tuple[int, int, dict]] = []
 
-    def add(self, case: dict, wbd: list[bool], runs: list[dict], order: str = "dca_first") -> None:
+    def add(self, case: dict, base: dict, runs: list[dict], order: str = "dca_first") -> None:
         scheds = [r["picks"] for r in runs]
-        lines = model_lines(case, wbd, scheds, order)
-        exp = ["ok"] * (len(lines) - len(scheds)) + [obs_line(r) for r in runs]
+        lines = model_lines(case, base["descs"], scheds, order)
+        # `wbd` line: the flags the model computed (`instWbd`) against the real would_be_trivially_dead per instance
+        exp = ["ok"] * (len(lines) - len(scheds) - 1) + ["wbd=" + bits_str(base["wbd_model"])] + [obs_line(r) for r in runs]
         self.cases.append((len(self.lines), len(self.lines) + len(lines), case))
         self.lines += lines
         self.expect += exp
@@ -768,9 +957,13 @@ def check_program(ctx: core.Ctx, batch: Batch, case: dict, nsched: int, exhausti
     ref = reference(case)
     if any(ref) and not all(ref) and chain_depths(case, ref) >= 2:
         ctx.nt(json.dumps(case, sort_keys=True))
-    design = [KINDS[k][1] for k, _i, _r, _p in flat_ops(case)]
+    design = [rm for _k, _i, _r, _p, rm in flat_ops(case)]
     if design != base["wbd"]:
         ctx.count("programs.design_flag_differs_from_would_be_trivially_dead")
+    for o in same_class_orders(case):
+        ctx.count("programs.same_class." + o)
+    ctx.count("ops.flag_computed_by_model", sum(d.startswith("opi") for d in base["descs"]))
+    ctx.count("ops.flag_from_real_function", sum(not d.startswith("opi") for d in base["descs"]))
     allruns = [base] + runs + runs2
     verdict = evaluate(case, allruns)
     if verdict is not None:
@@ -783,11 +976,16 @@ def check_program(ctx: core.Ctx, batch: Batch, case: dict, nsched: int, exhausti
         rs = [analyse(small)] + ([analyse(small, order=order)] if order != "dca_first" else []) + \
              ([analyse(small, lambda k, n, p=picks: p[k] if k < len(p) else 0, order=order)] if picks is not None else [])
         v2 = evaluate(small, rs) or verdict
+        d_small = [rm for _k, _i, _r, _p, rm in flat_ops(small)]
+        note = ("" if d_small == rs[0]["wbd"] else
+                f"; would_be_trivially_dead itself answers {bits_str(rs[0]['wbd'])} per op, the op instances are "
+                f"{bits_str(d_small)} removable by their traits/result types")
+        v2 = (v2[0], v2[1], v2[2] + note, v2[3])
         ctx.fail(v2[0], v2[1], {"program": small, "schedule": picks, "order": order}, v2[2],
                  [obs_line(r) for r in rs], "live=" + bits_str(reference(small)))
-    batch.add(case, base["wbd"], runs)
+    batch.add(case, base, runs)
     if runs2:
-        batch.add(case, base["wbd"], runs2, "live_first")
+        batch.add(case, base, runs2, "live_first")
 
 
 def unsupported_stream(ctx: core.Ctx, n: int) -> None:
@@ -848,11 +1046,27 @@ def run(ctx: core.Ctx) -> None:
             # for one program in twelve, at most 48 orders
             check_program(ctx, batch, case, 0, exhaustive_sched=True, second_order=ctx.rng.random() < 0.08, cap2=48)
             ctx.count(f"small_scope.{nxt}.sampled")
+    # 1b. one op class, removability per instance: every mix/order of removable and non-removable
+    # test.allocatable ops with ≤ 3 ops, every schedule (second load order: all for ≤ 2 ops, a share for 3)
+    for n in (1, 2, 3):
+        for case in small_scope_inst(n):
+            if ctx.time_left() < 0.25 * ctx.budget_s:
+                ctx.count(f"small_scope_inst.{n}.truncated_by_budget")
+                break
+            check_program(ctx, batch, case, 0, exhaustive_sched=True,
+                          second_order=n < 3 or ctx.rng.random() < (0.25 if quick else 1.0), cap2=48 if quick else 160)
+            ctx.count(f"small_scope_inst.{n}")
+        for case in small_scope_inst_func(n):
+            check_program(ctx, batch, case, 0, exhaustive_sched=True, cap2=48 if quick else 160)
+            ctx.count(f"small_scope_inst_func.{n}")
     ctx.exhaustive = True
     ctx.extra["exhaustive_scope"] = (
         f"all graph-mode programs with {full} single-result ops over {{pure x, pure x y, test x}} with operands "
         "among all values (forward/self references included), with no or one exit value, each under every worklist "
-        f"order of the real solver; a random sample of those with {nxt} ops; random programs beyond")
+        f"order of the real solver; a random sample of those with {nxt} ops; all graph-mode programs with ≤ 3 "
+        "one-operand test.allocatable ops whose result register is unallocated (removable instance) or allocated "
+        "(non-removable instance), same operand/exit choices, every worklist order, and the same ≤ 3 ops in a "
+        "function body (operands among two block arguments and earlier results); random programs beyond")
     # 2. random programs: untouched deque + FIFO + LIFO + ≥ 20 random schedules each
     nsched = 20 if quick else 24
     plan = [("func", 12, 120), ("module", 10, 100), ("module_dca", 8, 60), ("graph", 10, 400), ("graph", 30, 80)] if quick else \
@@ -884,7 +1098,10 @@ def replay(ctx: core.Ctx, body: dict) -> int:
     base = analyse(case, order=order)                      # untouched deque
     scheds: list[list[int]] = [[]] + ([list(picks)] if picks else [])
     logged = [analyse(case, lambda k, n, p=sc: p[k] if k < len(p) else 0, order=order) for sc in scheds]
-    model = ctx.model("liveness", model_lines(case, base["wbd"], scheds, order))[-len(scheds):]
+    mlines = model_lines(case, base["descs"], scheds, order)
+    mout = ctx.model("liveness", mlines)
+    model = mout[-len(scheds):]
+    flags = mout[-len(scheds) - 1]
     impl = [obs_line(r) for r in logged]
     print("program        :", json.dumps(case))
     print("load order     :", order, "(DeadCodeAnalysis before / after LivenessAnalysis)")
@@ -893,8 +1110,13 @@ def replay(ctx: core.Ctx, body: dict) -> int:
     print("implementation :", impl)
     print("lean model     :", model)
     print("reference      : live=" + bits_str(reference(case)))
+    design = [rm for _k, _i, _r, _p, rm in flat_ops(case)]
+    print("removable/op   : design " + bits_str(design) + "  would_be_trivially_dead " + bits_str(base["wbd"])
+          + "  (per op instance, program order)")
+    print("model op list  : lean " + flags + "  would_be_trivially_dead wbd=" + bits_str(base["wbd_model"]))
     verdict = evaluate(case, ([analyse(case)] if order != "dca_first" else []) + [base] + logged)
     print("property", "FAILS: " + verdict[2] if verdict else "holds", "on this case")
-    if impl != model:
-        print("correspondence : real solver and Lean model DIFFER on this case")
-    return 1 if (verdict or impl != model) else 0
+    bad = impl != model or flags != "wbd=" + bits_str(base["wbd_model"])
+    if bad:
+        print("correspondence : real code and Lean model DIFFER on this case")
+    return 1 if (verdict or bad) else 0
